@@ -315,8 +315,9 @@ bool World::populated(const std::string& path) const {
 Json::Value Op::toJson() const {
   Json::Value v(Json::objectValue);
   v["op"] = op;
-  if (op == "rm") v["path"] = path;
+  if (op == "rm" || op == "mv") v["path"] = path;
   if (op == "mk" || op == "set") v["cg"] = cg.toJson();
+  if (op == "mv") v["to"] = to;
   if (op == "host") v["host"] = host.toJson();
   if (op == "proc") {
     v["pid"] = pid;
@@ -329,6 +330,7 @@ Op Op::fromJson(const Json::Value& v) {
   Op o;
   o.op = v["op"].asString();
   o.path = v.get("path", "").asString();
+  o.to = v.get("to", "").asString();
   if (v.isMember("cg")) {
     o.cg = Cg::fromJson(v["cg"]);
     o.path = o.cg.path;
@@ -583,6 +585,23 @@ void Sim::apply(const Op& op) {
   Bypass b;
   if (op.op == "rm") {
     rm(op.path);
+  } else if (op.op == "mv") {
+    // rename(2) of a cgroup directory: same inode, new path, for the whole subtree
+    std::string par = parentOf(op.to);
+    if (!w_.find(op.path) || w_.find(op.to) || op.path.empty() || (!par.empty() && !w_.find(par))) return;
+    std::string from = cgroot_ + "/" + op.path, dest = cgroot_ + "/" + op.to;
+    if (::rename(from.c_str(), dest.c_str()) != 0) return;
+    for (auto& c : w_.cgs) {
+      if (c.path == op.path) {
+        c.path = op.to;
+      } else if (c.path.compare(0, op.path.size() + 1, op.path + "/") == 0) {
+        c.path = op.to + c.path.substr(op.path.size());
+      }
+    }
+    // parents before children
+    std::stable_sort(w_.cgs.begin(), w_.cgs.end(), [](const Cg& a, const Cg& b) { return std::count(a.path.begin(), a.path.end(), '/') + (a.path.empty() ? -1 : 0) < std::count(b.path.begin(), b.path.end(), '/') + (b.path.empty() ? -1 : 0); });
+    struct stat st;
+    if (::stat(dest.c_str(), &st) == 0) ever_[st.st_ino] = op.to;
   } else if (op.op == "mk") {
     if (w_.find(op.cg.path)) {
       // already exists: treat as remove + re-create (a different cgroup)
@@ -721,6 +740,7 @@ std::string Sim::unreadableSubstitute(const std::string& abspath) const {
 }
 
 long Sim::onWrite(const std::string& abspath, const std::string& data) {
+  lastKillCount = -1;
   std::string d = data;
   while (!d.empty() && (d.back() == '\n' || d.back() == ' ')) d.pop_back();
   if (abspath == scratch_ + "/proc/sys/vm/swappiness") {
@@ -774,14 +794,19 @@ long Sim::onWrite(const std::string& abspath, const std::string& data) {
     renderCg(*c);
   } else if (file == "cgroup.kill") {
     if (d != "1") return -ERANGE;
+    lastKillCount = 0;
+    bool wasPopulated = w_.populated(cgp);
     for (auto& cc : w_.cgs) {
       if (!w_.isDescendantOrSelf(cgp, cc.path)) continue;
+      lastKillCount += (long)cc.pids.size();
       for (int p : cc.pids) w_.procs.erase(p);
       cc.pids.clear();
       cc.zombie = false;
       renderProcs(cc);
     }
     for (auto& cc : w_.cgs) renderEvents(cc.path);
+    if (wasPopulated && lastKillCount == 0) lastKillCount = 1; // populated by something not listed
+    if (!wasPopulated) lastKillCount = 0;
   }
   return data.size();
 }
